@@ -1106,12 +1106,19 @@ struct DeriveEntry {
 impl DeriveEntry {
     fn from_root(attr: Option<TokenStream>, attrs: &[Attribute]) -> Result<Vec<Self>> {
         let mut args_list = Vec::new();
+        // Under the attribute macro, sibling attributes on the item itself may also be written with the crate path
+        // (`#[derive_ex::derive_ex(..)]`). Under `#[derive(Ex)]` such an attribute is the attribute macro, not a helper.
+        let is_attribute_macro = attr.is_some();
         if let Some(attr) = attr {
             args_list.push(parse2(attr)?);
         }
-        // Sibling attributes on the item itself may also be written with the crate path (`#[derive_ex::derive_ex(..)]`).
         for attr in attrs {
-            if is_root_derive_ex_attr(attr) {
+            let is_sibling = if is_attribute_macro {
+                is_root_derive_ex_attr(attr)
+            } else {
+                attr.path().is_ident("derive_ex")
+            };
+            if is_sibling {
                 args_list.push(attr.parse_args()?);
             }
         }
